@@ -333,6 +333,14 @@ _EL = "src/odfdo/element.py"
 _T = "src/odfdo/table.py"
 _MD = "src/odfdo/mixin_md.py"
 SEEDS = [
+    Seed("get_deleted(no_header) re-parents the live children of the heading again", "fault", "src/odfdo/tracked_changes.py",
+         "                        para.append(child.clone)", "                        para.append(child)", "R15a"),
+    Seed("a getter collects live children under a scratch element", "fault", _EL,
+         "    def text_recursive(self) -> str:\n        return self.inner_text + (self.tail or \"\")",
+         "    def text_recursive(self) -> str:\n        probe = Element.from_tag(\"text:span\")\n        for child in self.children:\n            probe.append(child)\n        return self.inner_text + (self.tail or \"\")", "R15a"),
+    Seed("a getter collects copies of the children under a scratch element", "neutral", _EL,
+         "    def text_recursive(self) -> str:\n        return self.inner_text + (self.tail or \"\")",
+         "    def text_recursive(self) -> str:\n        probe = Element.from_tag(\"text:span\")\n        for child in self.children:\n            probe.append(child.clone)\n        return self.inner_text + (self.tail or \"\")"),
     Seed("ranged column traversal clears the repeat of the live column group", "fault", _T, '                repeated = juska - before\n                before = juska\n                for _i in range(repeated or 1):\n                    if x <= end:\n                        column = column.clone\n                        column.x = x\n                        if repeated > 1 or (x == start and start > 0):', '                repeated = juska - before\n                before = juska\n                if x == start and start > 0:\n                    column.repeated = None\n                for _i in range(repeated or 1):\n                    if x <= end:\n                        column = column.clone\n                        column.x = x\n                        if repeated > 1:', "R15a"),
     Seed("wrapping a named range rewrites its attributes", "fault", _T,
          "        crange = crange.replace(\".\", \"\")\n        self._set_range(crange)", "        crange = crange.replace(\".\", \"\")\n        self.set_range(crange)", "R15a"),
@@ -376,7 +384,7 @@ SEEDS = [
          edits=[("src/odfdo/paragraph_base.py", 'from typing import Any\n', 'from copy import deepcopy\nfrom typing import Any\n'), ("src/odfdo/paragraph_base.py", '        if not context:\n            context = {\n                "document": None,\n                "footnotes": [],\n                "endnotes": [],\n                "annotations": [],\n                "rst_mode": False,\n                "img_counter": 0,\n                "images": [],\n                "no_img_level": 0,\n            }\n        content = _get_formatted_text(self, context, with_text=True)', '        if not context:\n            context = deepcopy(DEFAULT_CONTEXT)\n        content = _get_formatted_text(self, context, with_text=True)')]),
     Seed("Header context is a mutable default argument", "fault", "src/odfdo/header.py",
          "        context: dict | None = None,\n        simple: bool = False,\n    ) -> str:\n        if not context:", '        context: dict | None = {"document": None, "footnotes": [], "endnotes": [], "annotations": [], "rst_mode": False, "img_counter": 0, "images": [], "no_img_level": 0},\n        simple: bool = False,\n    ) -> str:\n        if not context:', "R15c"),
-    unparse_seed(_EL), unparse_seed(_T), unparse_seed(_MD), unparse_seed("src/odfdo/document.py"), unparse_seed("src/odfdo/paragraph.py"), unparse_seed("src/odfdo/paragraph_base.py"), unparse_seed("src/odfdo/header.py"),
+    unparse_seed(_EL), unparse_seed(_T), unparse_seed(_MD), unparse_seed("src/odfdo/document.py"), unparse_seed("src/odfdo/paragraph.py"), unparse_seed("src/odfdo/paragraph_base.py"), unparse_seed("src/odfdo/header.py"), unparse_seed("src/odfdo/tracked_changes.py"),
     Seed("export works on an explicit deepcopy", "neutral", "src/odfdo/xmlpart.py",
          "        root = deepcopy(tree.getroot())\n        return pretty_indent(root)", "        copied = deepcopy(tree)\n        root = copied.getroot()\n        return pretty_indent(root)"),
     Seed("read-only method builds and edits a fresh element", "neutral", _EL,
